@@ -35,8 +35,10 @@ def dispatch (op : String) : Option (List String → List String → Option (Str
   | "jobcounter" => some jobcounter
   | "pool.script" => some poolScript
   | "pool.stress" => some poolSpec
+  | "pool.race" => some poolSpec
   | "pool.usable" => some poolSpec
   | "pool.handles" => some poolSpec
+  | "result.stress" => some resultStress
   | "raterun.stop" => some raterunOp
   | "raterun.switch" => some raterunOp
   | "raterun.count" => some raterunOp
